@@ -54,6 +54,9 @@ func baseConfig() rules.Config {
 		MarkEndpoint:                   markEndpoint,
 		MarkNonCaliEndpoint:            markNonCali,
 		VXLANPort:                      4789,
+		WireguardInterfaceName:         "wireguard.cali",
+		WireguardInterfaceNameV6:       "wg-v6.cali",
+		WireguardMark:                  0x100000,
 		AllowVXLANPacketsFromWorkloads: true,
 		AllowIPIPPacketsFromWorkloads:  true,
 	}
@@ -140,3 +143,7 @@ func pick[T any](rnd *rand.Rand, xs []T) T      { return polgen.Pick(rnd, xs) }
 func protoByName(n string) *proto.Protocol      { return polgen.ProtoByName(n) }
 func protoByNum(n int32) *proto.Protocol        { return polgen.ProtoByNum(n) }
 func sortedKeys[V any](m map[string]V) []string { return polgen.SortedKeys(m) }
+
+var iptActions = iptables.Actions()
+
+func iptMatch() generictables.MatchCriteria { return iptables.Match() }
